@@ -3,7 +3,6 @@ using SP_q1_s = SplineTrajectory::QuinticSplineND<1>;
 using TM_q1_s = env::SimTimeMap;
 using SM_q1_s = env::SimSpatialMap<1>;
 OPT_REGISTER_ONE(C12, P_C12, q1_s, SP_q1_s, TM_q1_s, SM_q1_s, true, 3)
-#ifndef STSIM_TSAN
 OPT_REGISTER_ONE(C07, P_C07, q1_s, SP_q1_s, TM_q1_s, SM_q1_s, true, 1)
 OPT_REGISTER_ONE(C08, P_C08, q1_s, SP_q1_s, TM_q1_s, SM_q1_s, true, 1)
 OPT_REGISTER_ONE(C09, P_C09, q1_s, SP_q1_s, TM_q1_s, SM_q1_s, true, 1)
@@ -11,4 +10,3 @@ OPT_REGISTER_ONE(C10, P_C10, q1_s, SP_q1_s, TM_q1_s, SM_q1_s, true, 1)
 OPT_REGISTER_ONE(C15, P_C15, q1_s, SP_q1_s, TM_q1_s, SM_q1_s, true, 3)
 OPT_REGISTER_ONE(C16, P_C16, q1_s, SP_q1_s, TM_q1_s, SM_q1_s, true, 1)
 OPT_REGISTER_ONE(C19, P_C19, q1_s, SP_q1_s, TM_q1_s, SM_q1_s, true, 1)
-#endif
